@@ -236,7 +236,8 @@ def main(argv=None) -> int:
         else:
             new_vios[sig] = vs
 
-    replay_dir = os.path.join(HOME, "evidence", "replays")
+    OUT = os.environ.get("VERIF_OUT") or os.path.join(HOME, "evidence")
+    replay_dir = os.path.join(OUT, "replays")
     os.makedirs(replay_dir, exist_ok=True)
     lines = []
     for sig, (k, vs) in known_seen.items():
@@ -295,8 +296,8 @@ def main(argv=None) -> int:
         "wall_s": round(time.time() - t0, 2),
         "violations": sum(len(v) for v in new_vios.values()),
     }
-    os.makedirs(os.path.join(HOME, "evidence"), exist_ok=True)
-    with open(os.path.join(HOME, "evidence", f"{pid}.json"), "w") as f:
+    os.makedirs(OUT, exist_ok=True)
+    with open(os.path.join(OUT, f"{pid}.json"), "w") as f:
         json.dump(ev, f, indent=1, default=_jsonable)
 
     for ln in lines:
